@@ -119,10 +119,13 @@ def impl(case):
             warnings.simplefilter("ignore")
             for op in case["ops"]:
                 try:
-                    steps.append(_step(op, pool, Stream, StreamTeeHub, thub, lit))
+                    ob = _step(op, pool, Stream, StreamTeeHub, thub, lit)
                 except _Timeout:
-                    steps.append({"err": "TIMEOUT"})
+                    ob = {"err": "ENDLESS"}
+                if ob.get("err") == "ENDLESS":      # the request does not terminate: same as the
+                    steps.append({"hang": True})    # model's / spec's "hang"; the history stops here
                     break
+                steps.append(ob)
             for o in pool:                      # no MemoryLeakWarning noise from __del__
                 if isinstance(o, StreamTeeHub):
                     o._iters[:] = []
